@@ -281,6 +281,18 @@ theorem store_mem (m : Memory) (sg : Sig) : ∀ x ∈ (m.store sg).sigs, x ∈ m
     · exact hx
   · exact Or.inr hx
 
+/-- the fingerprint is CRITICAL by the T cell's own table once a second signal is there: three or more baseline
+    violations, or a canary accuracy below one half -/
+def CriticalNow (pr : Profile) (p : Peptide) : Prop := 3 ≤ (check pr p).length ∨ canaryLow p = true
+
+instance (pr : Profile) (p : Peptide) : Decidable (CriticalNow pr p) := inferInstanceAs (Decidable (_ ∨ _))
+
+theorem recalledPair_cases (t : TCell) (p : Peptide) (sig : Sig) :
+    (CriticalNow t.profile p ∧ recalledPair t p sig = (.critical, .shutdown)) ∨
+    (¬ CriticalNow t.profile p ∧ recalledPair t p sig = (sig.level, sig.action)) := by
+  unfold recalledPair respond CriticalNow
+  by_cases h1 : 3 ≤ (check t.profile p).length <;> by_cases h2 : canaryLow p = true <;> simp [h1, h2]
+
 /-- the memory as the pipeline sees it after the recall attempt -/
 def Sys.memAfterRecall (s : Sys) (a : Nat) (p : Peptide) : Memory :=
   ⟨s.mem.cap, (recallGo a p.vocab p.struct (s.clock + 1) s.mem.sigs).1⟩
@@ -292,7 +304,7 @@ theorem sys_inspect_cases (s : Sys) (a : Nat) :
     (∃ t p sig, (s.agents a).tcell = some t ∧ (s.agents a).display = some p ∧
       (recallGo a p.vocab p.struct (s.clock + 1) s.mem.sigs).2 = some sig ∧
       t.isAnergic = false ∧ check t.profile p ≠ [] ∧
-      (s.inspect a).2 = .resp ⟨sig.level, sig.action, .nonSelf, .cross, [.recalled], false⟩ ∧
+      (s.inspect a).2 = .resp ⟨(recalledPair t p sig).1, (recalledPair t p sig).2, .nonSelf, .cross, [.recalled], false⟩ ∧
       (s.inspect a).1.mem = s.memAfterRecall a p ∧ (s.inspect a).1.agents = s.agents) ∨
     (∃ t p, (s.agents a).tcell = some t ∧ (s.agents a).display = some p ∧
       s.inspect a = s.afterTCell a (s.agents a) p (s.memAfterRecall a p) (t.inspect p).1 (t.inspect p).2) := by
@@ -524,18 +536,31 @@ theorem softened_one_step (t : TCell) (p : Peptide) (r : Response) (h : Softened
     · rw [ha, hm, hc]; rfl
     · exact absurd hc hn
 
+/-- how a response relates to the remembered pair `(l, act)` that answered: it is that pair, or the fingerprint is
+    CRITICAL now and the response is CRITICAL / SHUTDOWN (memory never softens a critical threat) -/
+def AnswersFromMemory (t : TCell) (p : Peptide) (r : Response) (l : Level) (act : Action) : Prop :=
+  (r.level = l ∧ r.action = act) ∨ (CriticalNow t.profile p ∧ r.level = .critical ∧ r.action = .shutdown)
+
+theorem answersFromMemory_recalled (t : TCell) (p : Peptide) (sig : Sig) :
+    AnswersFromMemory t p ⟨(recalledPair t p sig).1, (recalledPair t p sig).2, .nonSelf, .cross, [.recalled], false⟩
+      sig.level sig.action := by
+  rcases recalledPair_cases t p sig with ⟨hc, hp⟩ | ⟨-, hp⟩
+  · exact Or.inr ⟨hc, by simp [hp], by simp [hp]⟩
+  · exact Or.inl ⟨by simp [hp], by simp [hp]⟩
+
 theorem l17_pipeline_two_signal (s : Sys) (a : Nat) (r : Response)
     (h : (s.inspect a).2 = .resp r) (ht : Threat r.level) :
     ∃ t p, (s.agents a).tcell = some t ∧ (s.agents a).display = some p ∧
       ¬ InBaseline t.profile p ∧ t.isAnergic = false ∧
-      (t.SecondSignal p ∨ Remembered s.mem a p r.level r.action) ∧ r.s1 = .nonSelf ∧ r.s2 ≠ .absent := by
+      (t.SecondSignal p ∨ ∃ l act, Remembered s.mem a p l act ∧ AnswersFromMemory t p r l act) ∧
+      r.s1 = .nonSelf ∧ r.s2 ≠ .absent := by
   rcases sys_inspect_cases s a with ⟨-, he⟩ | ⟨t, -, -, he⟩ | ⟨t, p, sig, h1, h2, hr, ha, hc, he, -⟩ | ⟨t, p, h1, h2, he⟩
   · rw [he] at h; cases h
   · rw [he] at h; cases h; simp [Threat] at ht
   · rw [he] at h; cases h
     obtain ⟨hm, hag, hv, hs⟩ := recallGo_some _ _ _ _ _ _ hr
     exact ⟨t, p, h1, h2, fun hb => hc ((check_eq_nil_iff _ _).mpr hb), ha,
-      Or.inr ⟨sig, hm, hag, hv, hs, rfl, rfl⟩, rfl, by simp⟩
+      Or.inr ⟨sig.level, sig.action, ⟨sig, hm, hag, hv, hs, rfl, rfl⟩, answersFromMemory_recalled t p sig⟩, rfl, by simp⟩
   · rw [he] at h
     rcases afterTCell_spec s a (s.agents a) p (s.memAfterRecall a p) (t.inspect p).1 (t.inspect p).2 with
       ⟨hx, -⟩ | ⟨r', hx, hsoft, -⟩
@@ -601,7 +626,7 @@ theorem l17_pipeline_anergic_silent (s : Sys) (a : Nat) (r : Response) (t : TCel
 
 theorem l17_pipeline_tolerance_one_step (s : Sys) (a : Nat) (r : Response) (t : TCell) (p : Peptide)
     (h : (s.inspect a).2 = .resp r) (htc : (s.agents a).tcell = some t) (hd : (s.agents a).display = some p) :
-    (r.s2 = .cross ∧ Remembered s.mem a p r.level r.action) ∨
+    (r.s2 = .cross ∧ ∃ l act, Remembered s.mem a p l act ∧ AnswersFromMemory t p r l act) ∨
     (r.level = (t.inspect p).2.level ∧ AtMostOneStepLower (t.inspect p).2.action r.action ∧
       ((t.inspect p).2.level = .critical → r.action = .shutdown)) := by
   rcases sys_inspect_cases s a with ⟨h0, -⟩ | ⟨t', -, h0, -⟩ | ⟨t', p', sig, h1, h2, hr, -, -, he, -⟩ | ⟨t', p', h1, h2, he⟩
@@ -610,7 +635,7 @@ theorem l17_pipeline_tolerance_one_step (s : Sys) (a : Nat) (r : Response) (t : 
   · rw [htc] at h1; rw [hd] at h2; cases h1; cases h2
     rw [he] at h; cases h
     obtain ⟨hm, hag, hv, hs⟩ := recallGo_some _ _ _ _ _ _ hr
-    exact Or.inl ⟨rfl, sig, hm, hag, hv, hs, rfl, rfl⟩
+    exact Or.inl ⟨rfl, sig.level, sig.action, ⟨sig, hm, hag, hv, hs, rfl, rfl⟩, answersFromMemory_recalled t p sig⟩
   · rw [htc] at h1; rw [hd] at h2; cases h1; cases h2
     rw [he] at h
     rcases afterTCell_spec s a (s.agents a) p (s.memAfterRecall a p) (t.inspect p).1 (t.inspect p).2 with
@@ -619,6 +644,53 @@ theorem l17_pipeline_tolerance_one_step (s : Sys) (a : Nat) (r : Response) (t : 
     · rw [hx] at h; cases h
       exact Or.inr (softened_one_step t p _ hsoft)
 
+
+/-- a threat verdict of the T cell is CRITICAL exactly when the fingerprint is critical-grade -/
+theorem tcell_threat_critical_iff (t : TCell) (p : Peptide) (h : Threat (t.inspect p).2.level) :
+    (t.inspect p).2.level = .critical ↔ CriticalNow t.profile p := by
+  rcases inspect_spec t p with ⟨-, he⟩ | ⟨-, -, hl, -⟩ | ⟨-, -, -, -, -, -, hl, -⟩
+  · rw [he] at h; simp [Threat] at h
+  · rw [hl] at h; simp [Threat] at h
+  · rw [hl] at h ⊢
+    have hs2 := (respond_nonSelf_threat _ _ _).mp h
+    unfold CriticalNow
+    cases hs : signal2Of t p true
+    · exact absurd hs hs2
+    all_goals
+      by_cases h1 : 3 ≤ (check t.profile p).length <;> by_cases h2 : canaryLow p = true <;> simp [respond, h1, h2]
+
+/-- memory never softens a critical threat, nor does a tolerance rule: whenever the pipeline reports a threat about a
+    fingerprint that is CRITICAL by the T cell's table, the report is CRITICAL / SHUTDOWN -/
+theorem l17_pipeline_critical_never_softened (s : Sys) (a : Nat) (r : Response) (t : TCell) (p : Peptide)
+    (h : (s.inspect a).2 = .resp r) (htc : (s.agents a).tcell = some t) (hd : (s.agents a).display = some p)
+    (ht : Threat r.level) (hc : CriticalNow t.profile p) : r.level = .critical ∧ r.action = .shutdown := by
+  rcases sys_inspect_cases s a with ⟨h0, -⟩ | ⟨t', -, h0, -⟩ | ⟨t', p', sig, h1, h2, -, -, -, he, -⟩ | ⟨t', p', h1, h2, he⟩
+  · rw [htc] at h0; cases h0
+  · rw [hd] at h0; cases h0
+  · rw [htc] at h1; rw [hd] at h2; cases h1; cases h2
+    rw [he] at h; cases h
+    rcases recalledPair_cases t p sig with ⟨-, hp⟩ | ⟨hn, -⟩
+    · simp [hp]
+    · exact absurd hc hn
+  · rw [htc] at h1; rw [hd] at h2; cases h1; cases h2
+    rw [he] at h
+    rcases afterTCell_spec s a (s.agents a) p (s.memAfterRecall a p) (t.inspect p).1 (t.inspect p).2 with
+      ⟨hx, -⟩ | ⟨r', hx, hsoft, -⟩
+    · rw [hx] at h; cases h
+    · rw [hx] at h; cases h
+      obtain ⟨h1, -, h3⟩ := softened_one_step t p _ hsoft
+      have hcr : (t.inspect p).2.level = .critical := (tcell_threat_critical_iff t p (by rw [← h1]; exact ht)).mpr hc
+      exact ⟨by rw [h1]; exact hcr, h3 hcr⟩
+
+/-- what the T cell alone calls CRITICAL is critical-grade (and the watcher is looking) -/
+theorem tcell_critical_grade (t : TCell) (p : Peptide) (h : (t.inspect p).2.level = .critical) :
+    CriticalNow t.profile p ∧ t.isAnergic = false ∧ check t.profile p ≠ [] := by
+  have ht : Threat (t.inspect p).2.level := Or.inr h
+  refine ⟨(tcell_threat_critical_iff t p ht).mp h, ?_⟩
+  rcases inspect_spec t p with ⟨-, he⟩ | ⟨-, -, hl, -⟩ | ⟨ha, hne, -⟩
+  · rw [he] at h; cases h
+  · rw [hl] at h; cases h
+  · exact ⟨ha, hne⟩
 
 /-! ### Pipeline histories -/
 
@@ -842,7 +914,10 @@ theorem inspect_critical_shutdown (s : Sys) (a : Nat) (r : Response)
   · rw [he] at h; cases h
   · rw [he] at h; cases h; cases hc
   · rw [he] at h; cases h
-    exact hm sig (recallGo_some _ _ _ _ _ _ hr).1 hc
+    rcases recalledPair_cases t p sig with ⟨-, hp⟩ | ⟨-, hp⟩
+    · simp [hp]
+    · simp only [hp] at hc ⊢
+      exact hm sig (recallGo_some _ _ _ _ _ _ hr).1 hc
   · rw [he] at h
     rcases afterTCell_spec s a (s.agents a) p (s.memAfterRecall a p) (t.inspect p).1 (t.inspect p).2 with
       ⟨hx, -⟩ | ⟨r', hx, hsoft, -⟩
@@ -880,7 +955,10 @@ theorem inspect_within_one_step (s : Sys) (a : Nat) (r : Response)
   · rw [he] at h; cases h
   · rw [he] at h; cases h; exact Or.inl rfl
   · rw [he] at h; cases h
-    exact hm sig (recallGo_some _ _ _ _ _ _ hr).1
+    rcases recalledPair_cases t p sig with ⟨-, hp⟩ | ⟨-, hp⟩
+    · simp only [hp]; exact Or.inl rfl
+    · simp only [hp]
+      exact hm sig (recallGo_some _ _ _ _ _ _ hr).1
   · rw [he] at h
     rcases afterTCell_spec s a (s.agents a) p (s.memAfterRecall a p) (t.inspect p).1 (t.inspect p).2 with
       ⟨hx, -⟩ | ⟨r', hx, hsoft, -⟩
